@@ -13,7 +13,7 @@ RULE = ("every transform of the tf table that the specification defines (sha256,
         "spec/Transforms.tla (built on Hashes / Base58 / Bech32 / BigNat); the opcode form of the hash functions is C01's")
 ASSUME = ["multi-argument transforms receive their arguments as a script of pushes, so one-byte arguments 01..10 / 81 and empty ones (which assemble to opcodes) are not generated",
           "secp256k1-dependent transforms other than taproot-tweak-pubkey and verify-sig (Schnorr) are not specified (no primitive in the trusted base)"]
-KW = ("fail", "invalid", "cannot", "error", "wrong", "unknown", "must", "exception")
+KW = ("fail", "invalid", "cannot", "error", "wrong", "unknown", "must", "exception", "out of range")
 
 
 def rb(rng, n):
@@ -106,6 +106,35 @@ def cases(chk):
         msg = rb(rng, 32); sig = btc.schnorr_sign(sec, msg)
         out.append(("verify_sig", "verify-sig", [D(msg), D(xk), D(sig)]))
         out.append(("verify_sig", "verify-sig", [D(msg), D(xk), D(sig[:10] + bytes([sig[10] ^ 1]) + sig[11:])]))
+    # arithmetic on public keys, ECDSA verification (DER and compact), echo
+    for i in range(5 if quick else 40):
+        s1 = rng.randrange(1, N); s2 = rng.randrange(1, N)
+        k1 = btc.pubkey_create(s1, compressed=rng.random() < 0.6, hybrid=False)
+        k2 = btc.pubkey_create(s2, compressed=rng.random() < 0.6, hybrid=(i % 3 == 2))
+        if i == 1: k2 = k1                                                   # doubling
+        if i == 2: k2 = btc.pubkey_serialize(btc.point_neg(btc.pubkey_parse(k1)))   # sum = infinity: no result
+        out.append(("combine_pubkeys", "combine-pubkeys", [D(k1), D(k2)]))
+        t = rb(rng, 32) if i > 1 else ((N - 1).to_bytes(32, "big") if i == 0 else N.to_bytes(32, "big"))
+        out.append(("tweak_pubkey", "tweak-pubkey", [D(t), D(k1)]))
+        out.append(("pubkey_to_xpubkey", "pubkey-to-xpubkey", [D(k2)]))
+        msg = rb(rng, 32)
+        r, sv = btc.ecdsa_sign(s1, msg, low_s=(i % 2 == 0), high_s=(i % 2 == 1))
+        der = btc.der_encode(r, sv)
+        if i % 4 == 3: der = btc.der_encode_lax(r, sv)
+        out.append(("verify_sig", "verify-sig", [D(msg), D(k1), D(der)]))
+        out.append(("verify_sig", "verify-sig", [D(msg), D(k2), D(der)]))                      # other key (valid only when k2 = k1)
+        bad = der[:-3] + bytes([der[-3] ^ 4]) + der[-2:]
+        out.append(("verify_sig", "verify-sig", [D(msg), D(k1), D(bad)]))
+        comp = r.to_bytes(32, "big") + sv.to_bytes(32, "big")
+        out.append((None, "verify-sig-compact", [D(msg), D(k1), D(comp)]))
+        out.append((None, "verify-sig-compact", [D(msg), D(k1), D(comp[:40] + bytes([comp[40] ^ 1]) + comp[41:])]))
+        out.append((None, "verify-sig-compact", [D(msg), D(k1), D(comp[:63])]))
+    off = bytes([2]) + (5).to_bytes(32, "big")                                   # x = 5 is not on the curve
+    out.append(("pubkey_to_xpubkey", "pubkey-to-xpubkey", [D(off)]))
+    out.append(("combine_pubkeys", "combine-pubkeys", [D(off), D(btc.pubkey_create(7))]))
+    for v in (b"\x05", b"abc", rb(rng, 40)):
+        out.append(("echo", "echo", [D(v)]))
+    out.append(("echo", "echo", [S("hello")]))
     return out
 
 
@@ -142,7 +171,7 @@ def run(chk):
                 evs.append({"e": "Crashed", "sig": -1, "cmd": cmd, "args": args}); break
             lines = [l for l in out.strip().split("\n") if l and not l.startswith("(bech32")]
             failed = any(w in err.lower() or w in out.lower() for w in KW)
-            name = nm or {"len": "len", "bech32m-encode": "bech32menc"}.get(cmd, cmd)
+            name = nm or {"len": "len", "bech32m-encode": "bech32menc", "verify-sig-compact": "verify_sig_compact"}.get(cmd, cmd)
             evs.append({"e": "Tf", "form": "cmd", "name": name, "args": args, "out": lines[-1] if lines else "", "failed": failed, "stderr": err[-150:]})
         R.close()
         return evs
